@@ -2,3 +2,7 @@ pub mod c13;
 pub mod c06;
 pub mod c07;
 pub mod c17;
+pub mod c01;
+pub mod wire;
+pub mod c04;
+pub mod c10;
